@@ -197,6 +197,8 @@ func c16Pluck(c *fw.Ctx, obj int, keys []string) *fw.Violation {
 		Ex(Asg("=", Mem(V("r"), "fresh"), N("1"))), Pr(V("$")),
 		// ... also for keys that were plucked, in both directions
 		Ex(Asg("=", Mem(V("r"), "a"), S("changed in r"))), Ex(&Postfix{"++", Mem(V("r"), "b")}), Pr(V("$"), V("r")),
+		// a key that was absent in the original is an ordinary null member of the result
+		Ex(Asg("=", Mem(V("r"), "z"), S("z set in r"))), Pr(V("$"), V("r"), CallE(Mem(V("$"), "length"))),
 		Ex(Asg("=", Mem(V("$"), "a"), S("changed in $"))), Ex(Asg("=", Mem(V("$"), "z"), N("7"))), Pr(V("$"), V("r")),
 	}
 	pc := &progCase{P: &Program{Rules: []*Rule{{Body: Blk(body...)}}}, Files: []inFile{{"in.json", c16Object(obj)}}}
@@ -436,6 +438,9 @@ func init() {
 				rec(nil)
 			}
 			if u == 0 {
+				// letters whose other case has a different encoded width, at the start, in the middle and at the end
+				special := []string{"İstanbul", "ıq", "xſ", "K", "Å", "ẞa", "Ⱥbc", "xɐ", "ɐ", "aİ", "İ", "ǅ", "ﬁ", "ŉ", "\u1e9e", "ⱥ", "ɫ", "ᲀ"}
+				c.Do(func() any { return c16Spec{Form: "case-special"} }, func() *fw.Violation { return c16Case(c, special) })
 				for i, pc := range c16NestedPrograms() {
 					pc, i := pc, i
 					c.Do(func() any { return c16Spec{Form: "nested", Lo: i, Prog: pc.source()} }, func() *fw.Violation { return pc.mustCheck(c, "one method on two receivers") })
@@ -482,6 +487,8 @@ func init() {
 				return c16Nums(c, sweep[s.Lo:s.Hi])
 			case "num":
 				return c16Num(c, numStrs[s.Lo:s.Hi])
+			case "case-special":
+				return c16Case(c, []string{"İstanbul", "ıq", "xſ", "K", "Å", "ẞa", "Ⱥbc", "xɐ", "ɐ", "aİ", "İ", "ǅ", "ﬁ", "ŉ", "\u1e9e", "ⱥ", "ɫ", "ᲀ"})
 			case "pluck":
 				return c16Pluck(c, s.Obj, s.Keys)
 			case "nested":
